@@ -6,8 +6,10 @@
   representation every Poly of the library has whose entries were stored through `__setitem__`/constructors.
 -/
 import Proofs.Lemmas.SalsaRounds
+import Proofs.Lemmas.StreamEnc
+import Proofs.Lemmas.SalsaBytes
 namespace Proofs.C06
-open Model Model.Gen.Streams Proofs.Lemmas.StreamPoly Proofs.Lemmas.SalsaRounds
+open Model Model.Gen.Streams Proofs.Lemmas.StreamPoly Proofs.Lemmas.SalsaRounds Proofs.Lemmas.StreamEnc Proofs.Lemmas.SalsaBytes
 
 /-! ## A. what the translator read from the source is what the specifications prescribe -/
 
@@ -87,5 +89,125 @@ theorem chacha_doubleround_refines (ws : List (BitVec 32)) (h : ws.length = 16) 
 
 theorem chacha_core_refines (dround : Nat) (ws : List (BitVec 32)) (h : ws.length = 16) :
     Salsa.core Chacha.chacha (ofBV ws) dround = .ok (ofBV (Spec.Chacha.coreWords dround ws)) := chacha_core dround ws h
+
+/-! ## C. the streams: counter words, `enc = M xor KS[0:|M|]`, length, round trip, prefix -/
+
+/-- the counter words of `block_i` are the specification's counter: the little-endian words of the 8 bytes of `i` -/
+theorem words_counter (i : Nat) :
+    Spec.Salsa20.words (Spec.Salsa20.le64 i) = [BitVec.ofNat 32 (i % 2 ^ 32), BitVec.ofNat 32 (i / 2 ^ 32)] := words_le64 i
+
+/-- block number `i` of the generator, for EVERY `i` (in particular `i < 2^64`, across the carry at 2^32): the counter
+    words written into the state are `i mod 2^32` (low) and `i / 2^32` (high) — by `words_counter` these are the two
+    little-endian words of the specification's 8-byte counter — and the block is the core function of that state -/
+theorem salsa_block_i (K : Option (List Bits)) (P : List (BitVec 32)) (hP : P.length = 16) (dr i : Nat) :
+    Salsa.block Salsa.salsa ⟨K, ofBV P, dr⟩ i =
+      .ok (ofBV (Spec.Salsa20.coreWords dr ((P.set 8 (BitVec.ofNat 32 (i % 2 ^ 32))).set 9 (BitVec.ofNat 32 (i / 2 ^ 32)))),
+           ⟨K, ofBV ((P.set 8 (BitVec.ofNat 32 (i % 2 ^ 32))).set 9 (BitVec.ofNat 32 (i / 2 ^ 32))), dr⟩) :=
+  block_words salsaSpec K P hP dr i
+
+/-- **enc_spec**: for every object state (16 words `P`: any constants/key; a key is present), every 64-bit nonce `x`,
+    start block `b0` (0 in the library, other values through the guarded hook) and message `M` whose blocks stay below
+    2^64: `enc(v,M) = M xor KS[0:|M|]`, KS = the blocks `b0, b0+1, …` of the core function on the state words with the
+    nonce at words 6,7 and the counter at words 8,9 (`encW`, `ksFrom`, `ksBlock` in Proofs.Lemmas.StreamEnc);
+    the object afterwards holds the same constants and key. -/
+theorem salsa_enc_spec (K : List Bits) (P : List (BitVec 32)) (hP : P.length = 16) (dr x b0 : Nat) (M : List (BitVec 8))
+    (hb : b0 + (M.length + 63) / 64 ≤ 2 ^ 64) :
+    ∃ P', SameKey 6 8 P P' ∧
+      Salsa.encFrom Salsa.salsa ⟨some K, ofBV P, dr⟩ ⟨x, 64⟩ b0 (M.map (·.toNat)) =
+        .ok ((encW Spec.Salsa20.coreWords dr 6 8 P x b0 M).map (·.toNat), ⟨some K, ofBV P', dr⟩) :=
+  encFrom_words salsaSpec K P hP dr x b0 M hb
+
+/-- `|enc(v,M)| = |M|`, also for the empty message -/
+theorem salsa_enc_length (K : List Bits) (P : List (BitVec 32)) (hP : P.length = 16) (dr x b0 : Nat) (M : List (BitVec 8))
+    (hb : b0 + (M.length + 63) / 64 ≤ 2 ^ 64) :
+    ∃ C s', Salsa.encFrom Salsa.salsa ⟨some K, ofBV P, dr⟩ ⟨x, 64⟩ b0 (M.map (·.toNat)) = .ok (C, s') ∧ C.length = M.length := by
+  obtain ⟨P', _, h⟩ := salsa_enc_spec K P hP dr x b0 M hb
+  exact ⟨_, _, h, by rw [List.length_map, encW_length salsaSpec dr _ _ P hP]⟩
+
+/-- `dec(v, enc(v,M)) = M` on the same object (the second call starts from the state the first one left) -/
+theorem salsa_dec_enc (K : List Bits) (P : List (BitVec 32)) (hP : P.length = 16) (dr x b0 : Nat) (M : List (BitVec 8))
+    (hb : b0 + (M.length + 63) / 64 ≤ 2 ^ 64) :
+    ∃ s'', (do let (C, s') ← Salsa.encFrom Salsa.salsa ⟨some K, ofBV P, dr⟩ ⟨x, 64⟩ b0 (M.map BitVec.toNat)
+               Salsa.encFrom Salsa.salsa s' ⟨x, 64⟩ b0 C) = .ok (M.map BitVec.toNat, s'') := by
+  obtain ⟨P', hk, h⟩ := salsa_enc_spec K P hP dr x b0 M hb
+  have hl := encW_length salsaSpec dr 6 8 P hP x b0 M
+  obtain ⟨P'', _, h2⟩ := salsa_enc_spec K P' (hk.1.trans hP) dr x b0 (encW Spec.Salsa20.coreWords dr 6 8 P x b0 M) (by rw [hl]; exact hb)
+  refine ⟨⟨some K, ofBV P'', dr⟩, ?_⟩
+  rw [h, bind_ok]
+  simp only []
+  rw [h2, encW_sameKey _ dr 6 8 hk, encW_encW salsaSpec dr 6 8 P hP]
+
+/-- prefix law: encrypting `M[:k]` (on the object left by any earlier call, or a fresh one) gives `enc(M)[:k]` -/
+theorem salsa_enc_prefix (K : List Bits) (P : List (BitVec 32)) (hP : P.length = 16) (dr x b0 : Nat) (M : List (BitVec 8))
+    (k : Nat) (hb : b0 + (M.length + 63) / 64 ≤ 2 ^ 64) :
+    ∃ C s' s'' s''', Salsa.encFrom Salsa.salsa ⟨some K, ofBV P, dr⟩ ⟨x, 64⟩ b0 (M.map (·.toNat)) = .ok (C, s') ∧
+      Salsa.encFrom Salsa.salsa s' ⟨x, 64⟩ b0 ((M.take k).map (·.toNat)) = .ok (C.take k, s'') ∧
+      Salsa.encFrom Salsa.salsa ⟨some K, ofBV P, dr⟩ ⟨x, 64⟩ b0 ((M.take k).map (·.toNat)) = .ok (C.take k, s''') := by
+  obtain ⟨P', hk, h⟩ := salsa_enc_spec K P hP dr x b0 M hb
+  have hb' : b0 + ((M.take k).length + 63) / 64 ≤ 2 ^ 64 := by
+    have : ((M.take k).length + 63) / 64 ≤ (M.length + 63) / 64 := by simp only [List.length_take]; omega
+    omega
+  obtain ⟨P'', _, h2⟩ := salsa_enc_spec K P' (hk.1.trans hP) dr x b0 (M.take k) hb'
+  obtain ⟨P3, _, h3⟩ := salsa_enc_spec K P hP dr x b0 (M.take k) hb'
+  refine ⟨_, _, ⟨some K, ofBV P'', dr⟩, ⟨some K, ofBV P3, dr⟩, h, ?_, ?_⟩
+  · rw [h2, encW_sameKey _ dr 6 8 hk, encW_prefix salsaSpec dr 6 8 P hP, List.map_take]
+  · rw [h3, encW_prefix salsaSpec dr 6 8 P hP, List.map_take]
+
+/-- block number `i` of the generator, for EVERY `i` (in particular `i < 2^64`, across the carry at 2^32): the counter
+    words written into the state are `i mod 2^32` (low) and `i / 2^32` (high) — by `words_counter` these are the two
+    little-endian words of the specification's 8-byte counter — and the block is the core function of that state -/
+theorem chacha_block_i (K : Option (List Bits)) (P : List (BitVec 32)) (hP : P.length = 16) (dr i : Nat) :
+    Salsa.block Chacha.chacha ⟨K, ofBV P, dr⟩ i =
+      .ok (ofBV (Spec.Chacha.coreWords dr ((P.set 12 (BitVec.ofNat 32 (i % 2 ^ 32))).set 13 (BitVec.ofNat 32 (i / 2 ^ 32)))),
+           ⟨K, ofBV ((P.set 12 (BitVec.ofNat 32 (i % 2 ^ 32))).set 13 (BitVec.ofNat 32 (i / 2 ^ 32))), dr⟩) :=
+  block_words chachaSpec K P hP dr i
+
+/-- **enc_spec**: for every object state (16 words `P`: any constants/key; a key is present), every 64-bit nonce `x`,
+    start block `b0` (0 in the library, other values through the guarded hook) and message `M` whose blocks stay below
+    2^64: `enc(v,M) = M xor KS[0:|M|]`, KS = the blocks `b0, b0+1, …` of the core function on the state words with the
+    nonce at words 14,15 and the counter at words 12,13 (`encW`, `ksFrom`, `ksBlock` in Proofs.Lemmas.StreamEnc);
+    the object afterwards holds the same constants and key. -/
+theorem chacha_enc_spec (K : List Bits) (P : List (BitVec 32)) (hP : P.length = 16) (dr x b0 : Nat) (M : List (BitVec 8))
+    (hb : b0 + (M.length + 63) / 64 ≤ 2 ^ 64) :
+    ∃ P', SameKey 14 12 P P' ∧
+      Salsa.encFrom Chacha.chacha ⟨some K, ofBV P, dr⟩ ⟨x, 64⟩ b0 (M.map (·.toNat)) =
+        .ok ((encW Spec.Chacha.coreWords dr 14 12 P x b0 M).map (·.toNat), ⟨some K, ofBV P', dr⟩) :=
+  encFrom_words chachaSpec K P hP dr x b0 M hb
+
+/-- `|enc(v,M)| = |M|`, also for the empty message -/
+theorem chacha_enc_length (K : List Bits) (P : List (BitVec 32)) (hP : P.length = 16) (dr x b0 : Nat) (M : List (BitVec 8))
+    (hb : b0 + (M.length + 63) / 64 ≤ 2 ^ 64) :
+    ∃ C s', Salsa.encFrom Chacha.chacha ⟨some K, ofBV P, dr⟩ ⟨x, 64⟩ b0 (M.map (·.toNat)) = .ok (C, s') ∧ C.length = M.length := by
+  obtain ⟨P', _, h⟩ := chacha_enc_spec K P hP dr x b0 M hb
+  exact ⟨_, _, h, by rw [List.length_map, encW_length chachaSpec dr _ _ P hP]⟩
+
+/-- `dec(v, enc(v,M)) = M` on the same object (the second call starts from the state the first one left) -/
+theorem chacha_dec_enc (K : List Bits) (P : List (BitVec 32)) (hP : P.length = 16) (dr x b0 : Nat) (M : List (BitVec 8))
+    (hb : b0 + (M.length + 63) / 64 ≤ 2 ^ 64) :
+    ∃ s'', (do let (C, s') ← Salsa.encFrom Chacha.chacha ⟨some K, ofBV P, dr⟩ ⟨x, 64⟩ b0 (M.map BitVec.toNat)
+               Salsa.encFrom Chacha.chacha s' ⟨x, 64⟩ b0 C) = .ok (M.map BitVec.toNat, s'') := by
+  obtain ⟨P', hk, h⟩ := chacha_enc_spec K P hP dr x b0 M hb
+  have hl := encW_length chachaSpec dr 14 12 P hP x b0 M
+  obtain ⟨P'', _, h2⟩ := chacha_enc_spec K P' (hk.1.trans hP) dr x b0 (encW Spec.Chacha.coreWords dr 14 12 P x b0 M) (by rw [hl]; exact hb)
+  refine ⟨⟨some K, ofBV P'', dr⟩, ?_⟩
+  rw [h, bind_ok]
+  simp only []
+  rw [h2, encW_sameKey _ dr 14 12 hk, encW_encW chachaSpec dr 14 12 P hP]
+
+/-- prefix law: encrypting `M[:k]` (on the object left by any earlier call, or a fresh one) gives `enc(M)[:k]` -/
+theorem chacha_enc_prefix (K : List Bits) (P : List (BitVec 32)) (hP : P.length = 16) (dr x b0 : Nat) (M : List (BitVec 8))
+    (k : Nat) (hb : b0 + (M.length + 63) / 64 ≤ 2 ^ 64) :
+    ∃ C s' s'' s''', Salsa.encFrom Chacha.chacha ⟨some K, ofBV P, dr⟩ ⟨x, 64⟩ b0 (M.map (·.toNat)) = .ok (C, s') ∧
+      Salsa.encFrom Chacha.chacha s' ⟨x, 64⟩ b0 ((M.take k).map (·.toNat)) = .ok (C.take k, s'') ∧
+      Salsa.encFrom Chacha.chacha ⟨some K, ofBV P, dr⟩ ⟨x, 64⟩ b0 ((M.take k).map (·.toNat)) = .ok (C.take k, s''') := by
+  obtain ⟨P', hk, h⟩ := chacha_enc_spec K P hP dr x b0 M hb
+  have hb' : b0 + ((M.take k).length + 63) / 64 ≤ 2 ^ 64 := by
+    have : ((M.take k).length + 63) / 64 ≤ (M.length + 63) / 64 := by simp only [List.length_take]; omega
+    omega
+  obtain ⟨P'', _, h2⟩ := chacha_enc_spec K P' (hk.1.trans hP) dr x b0 (M.take k) hb'
+  obtain ⟨P3, _, h3⟩ := chacha_enc_spec K P hP dr x b0 (M.take k) hb'
+  refine ⟨_, _, ⟨some K, ofBV P'', dr⟩, ⟨some K, ofBV P3, dr⟩, h, ?_, ?_⟩
+  · rw [h2, encW_sameKey _ dr 14 12 hk, encW_prefix chachaSpec dr 14 12 P hP, List.map_take]
+  · rw [h3, encW_prefix chachaSpec dr 14 12 P hP, List.map_take]
 
 end Proofs.C06
